@@ -292,7 +292,7 @@ class Ctx:
             # sqrt(q*r) = sqrt(q)*sqrt(r): split off the polynomial of an existing root atom
             # (both factors are non-negative wherever the roots are real)
             for qkey, qk in list(self.polyatoms.items()):
-                if qkey and qkey[0] == 'abs': continue
+                if qkey and qkey[0] in ('abs', 'absp'): continue
                 q = dict(qkey)
                 if len(q) < 2 or len(q) > len(p): continue
                 r = pdivexact(p, q)
@@ -325,6 +325,9 @@ class Ctx:
             return ({}, pconst(1))
         if len(xr0[0]) == 1 and () in xr0[0] and len(xr0[1]) == 1 and () in xr0[1]:
             return (pconst(abs(xr0[0][()] / xr0[1][()])), pconst(1))
+        if not (len(xr0[1]) == 1 and () in xr0[1]):
+            # |N/D| = |N| / |D|
+            return self.rdiv(self.abs_poly(xr0[0]), self.abs_poly(xr0[1]))
         node = T.call('fabs', [x], x.ty)
         k = self.key(node)
         if k not in self.rules:
@@ -332,6 +335,24 @@ class Ctx:
             if xr[1] == pconst(1):
                 self.rules[k] = ppow(xr[0], 2)
         return (patom(k), pconst(1))
+
+    def abs_poly(self, p):
+        """|p| for a polynomial p, as an atom a with a^2 -> p^2"""
+        one = pconst(1)
+        if len(p) == 1 and () in p:
+            return (pconst(abs(p[()])), one)
+        key = ('absp',) + tuple(sorted(p.items()))
+        k = self.polyatoms.get(key)
+        if k is None:
+            nkey = ('absp',) + tuple(sorted(pneg(p).items()))
+            k = self.polyatoms.get(nkey)
+        if k is None:
+            k = -(len(self.polyatoms) + 1)
+            self.polyatoms[key] = k
+            self.rules[k] = ppow(p, 2)
+            self.atom_nodes[k] = None
+            self.poly_names[k] = None
+        return (patom(k), one)
 
     def call(self, n):
         name = n.attr
